@@ -875,6 +875,7 @@ pub fn err_kind(e: &SearchError) -> String {
 /// run the real algorithm with the pop-trace and virtual-clock hooks on
 pub fn exec(c: &SCase, b: &Built) -> Exec {
     let dir = if c.reverse { Direction::Reverse } else { Direction::Forward };
+    crate::watch::enter(|| format!("{:?}", c));
     verif_clock::set(first_clock(&c.term));
     verif_hook::start();
     let res = std::panic::catch_unwind(std::panic::AssertUnwindSafe(|| {
@@ -884,6 +885,7 @@ pub fn exec(c: &SCase, b: &Built) -> Exec {
             b.alg.run_vertex_oriented(VertexId(c.source), c.target.map(VertexId), &b.query, &dir, &b.si)
         }
     }));
+    crate::watch::leave();
     let trace = verif_hook::take();
     verif_clock::set(None);
     let mut scheds: Vec<Vec<usize>> = vec![];
